@@ -63,11 +63,11 @@ fn main() {
             let sh = shard::parse_shard(&args);
             let only = arg(&args, "--only").or_else(|| if comp == "c06" { Some("batch-parked".to_string()) } else { None });
             if sh.is_some() || replay.is_some() || std::env::var("VERIF_NOSHARD").is_ok() {
-                c05::run(&tier, seed, replay.as_deref(), sh, only.as_deref())
+                c05::run(&tier, seed, replay.as_deref(), sh, only.as_deref(), &drv)
             } else {
                 let mut rep = report::Report::new(&comp, c05::rule());
                 let n = par::threads().min(8);
-                let mut pass: Vec<String> = vec!["--tier".into(), tier.clone(), "--seed".into(), seed.to_string()];
+                let mut pass: Vec<String> = vec!["--tier".into(), tier.clone(), "--seed".into(), seed.to_string(), "--drv".into(), drv.clone()];
                 if let Some(o) = &only {
                     pass.push("--only".into());
                     pass.push(o.clone());
@@ -93,7 +93,7 @@ fn main() {
                 rep
             }
         }
-        "c17" => c17::run(&tier, seed, replay.as_deref()),
+        "c17" => c17::run(&tier, seed, replay.as_deref(), &drv),
         "c15" => {
             let sh = shard::parse_shard(&args);
             if sh.is_some() || replay.is_some() || std::env::var("VERIF_NOSHARD").is_ok() {
@@ -128,11 +128,11 @@ fn main() {
             let sh = shard::parse_shard(&args);
             let cdir = format!("{corpus}/{}", if torn { "C16" } else { "C02" });
             if sh.is_some() || replay.is_some() || std::env::var("VERIF_NOSHARD").is_ok() {
-                crash::run(torn, &tier, seed, replay.as_deref(), &cdir, sh)
+                crash::run(torn, &tier, seed, replay.as_deref(), &cdir, sh, &drv)
             } else {
                 let mut rep = report::Report::new(&comp, crash::rule(torn));
                 let n = par::threads();
-                let pass: Vec<String> = vec!["--tier".into(), tier.clone(), "--seed".into(), seed.to_string(), "--corpus".into(), corpus.clone()];
+                let pass: Vec<String> = vec!["--tier".into(), tier.clone(), "--seed".into(), seed.to_string(), "--corpus".into(), corpus.clone(), "--drv".into(), drv.clone()];
                 let secs = if tier == "thorough" { 3000 } else { 500 };
                 shard::run_sharded(&mut rep, &comp, &pass, n, std::time::Duration::from_secs(secs), "c09:operation-hangs");
                 rep.rule = crash::rule(torn).to_string();
